@@ -12,7 +12,9 @@ Require Import Clarabel.Base.Ops Clarabel.Cones.Vec Clarabel.Cones.NN Clarabel.C
 Require Import Clarabel.Cones.LemmasScalNN Clarabel.Cones.LemmasScalSOC Clarabel.Cones.LemmasScalSOC2
                Clarabel.Cones.LemmasScalSOC3 Clarabel.Cones.PSDIndex Clarabel.Cones.SpecPSD
                Clarabel.Cones.LemmasPSDIndex Clarabel.Cones.Mat Clarabel.Cones.SpecPSDScal
-               Clarabel.Cones.LemmasPSDScal Clarabel.Cones.LemmasPSDOps.
+               Clarabel.Cones.LemmasPSDScal Clarabel.Cones.LemmasPSDOps Clarabel.Cones.PSDOps
+               Clarabel.Cones.LemmasTri Clarabel.Cones.SpecPSDJordan Clarabel.Cones.LemmasPSDJordan
+               Clarabel.Cones.LemmasPSDSkron.
 Import ListNotations.
 Open Scope R_scope.
 
@@ -105,6 +107,40 @@ Proof. exact psd_WZW_ok. Qed.
 (** mul_W / mul_Winv of the PSD cone in svec form: y <- α·(conjugation of x) + β·y for all α, β *)
 Theorem C13_psd_mul_W_affine : stmt_psd_mul_W_affine.
 Proof. exact psd_mul_W_affine_ok. Qed.
+
+(** a lower triangular matrix with non-zero diagonal is right-invertible; hence R R⁻¹ = I from the
+    shape of the Cholesky factor alone *)
+Theorem C13_lower_tri_right_inverse : stmt_lower_tri_right_inverse.
+Proof. exact lower_tri_right_inverse_ok. Qed.
+Theorem C13_psd_R_Rinv_tri : stmt_psd_R_Rinv_tri.
+Proof. exact psd_R_Rinv_tri_ok. Qed.
+(** PSD Jordan operations, Δs offset and combined shift: the packed (svec) routines of PSDOps.v
+    are the matrix operations; λ_inv_circ_op inverts circ_op with Λ; affine_ds = λ∘λ *)
+Theorem C13_psd_mul_Wx_mat : stmt_psd_mul_Wx_mat.
+Proof. exact psd_mul_Wx_mat_ok. Qed.
+Theorem C13_psd_circ_mat : stmt_psd_circ_mat.
+Proof. exact psd_circ_mat_ok. Qed.
+Theorem C13_psd_lam_inv_circ_mat : stmt_psd_lam_inv_circ_mat.
+Proof. exact psd_lam_inv_circ_mat_ok. Qed.
+Theorem C13_psd_diag_vec_mat : stmt_psd_diag_vec_mat.
+Proof. exact psd_diag_vec_mat_ok. Qed.
+Theorem C13_psd_affine_ds : stmt_psd_affine_ds.
+Proof. exact psd_affine_ds_ok. Qed.
+Theorem C13_psd_lam_inv_circ_inverse : stmt_psd_lam_inv_circ_inverse.
+Proof. exact psd_lam_inv_circ_inverse_ok. Qed.
+Theorem C13_psd_combined_ds_shift : stmt_psd_combined_ds_shift.
+Proof. exact psd_combined_ds_shift_ok. Qed.
+Theorem C13_psd_ds_offset : stmt_psd_ds_offset.
+Proof. exact psd_ds_offset_ok. Qed.
+(** get_Hs of the PSD cone: the packed block holds skron(A), A = R Rᵀ, which is the operator X ↦ A X A *)
+Theorem C13_psd_get_Hs_entries : stmt_psd_get_Hs_entries.
+Proof. exact psd_get_Hs_entries_ok. Qed.
+Theorem C13_psd_skron_symmetric : stmt_psd_skron_symmetric.
+Proof. exact psd_skron_symmetric_ok. Qed.
+Theorem C13_psd_skron_operator : stmt_psd_skron_operator.
+Proof. exact psd_skron_operator_ok. Qed.
+Theorem C13_psd_RRt_symmetric : stmt_psd_RRt_symmetric.
+Proof. exact psd_RRt_symmetric_ok. Qed.
 
 (** non-vacuity *)
 Example C13_ex_normalised : soc_normalised [3; 2; 2].
